@@ -381,16 +381,15 @@ func c27ChannelsCodecs() []*kit.Codec {
 }
 
 func TestVerifC27Channels(t *testing.T) {
-	r := ev.Start(t, "C27")
-	defer r.Finish()
 	kit.ErrorEqual = func(a, b error) bool { return c27ErrClass(a) == c27ErrClass(b) && a.Error() == b.Error() }
-	codecs := c27ChannelsCodecs()
-	k := kit.NewRunner(r)
-	k.Run(codecs)
-	if r.Replay() != nil {
+	kit.Main(t, "C27", c27ChannelsCodecs, c27ChannelsRPCErrors)
+}
+
+// application errors carried by an RPC result frame: every sentinel class must survive
+func c27ChannelsRPCErrors(r *ev.R, replaying bool) {
+	if replaying {
 		return
 	}
-	// application errors carried by an RPC result frame: every sentinel class must survive
 	e := r.NewEnum("rpc-error-roundtrip")
 	for _, kind := range []uint8{kindAck, kindPullResponse, kindAppendBatchResponse} {
 		for i, s := range c27Sentinels {
@@ -421,5 +420,6 @@ func TestVerifC27Channels(t *testing.T) {
 		}
 	}
 	e.Done(true, map[string]any{"kinds": 3, "sentinels": len(c27Sentinels), "wrappings": 3}, "every mapped sentinel x {plain, suffixed detail, prefixed context} through encodeRPCResult/decodeRPCResult")
-	r.Guard("channels-codecs", len(codecs) >= 22, "codecs=%d", len(codecs))
+	n := len(c27ChannelsCodecs())
+	r.Guard("channels-codecs", n >= 22, "codecs=%d", n)
 }
